@@ -44,6 +44,7 @@ CHECKS['C15'] = dict(engine='S', tech='symbolic execution of the real codec on b
     text='bounded check: from_bytes/to_bytes/serde are executed on buffers whose 32-byte elements are opaque symbols, so one run covers every content of a shape; tag, element count, trailing remainder and canonicity forks are enumerated; the verdict must equal the stated acceptance set, the accepting path must have established canonicity of exactly the scalar elements (propositional query), re-encoding and serde must be the identity; prover output length formula and round trip on the lattice',
     note='A3, A5; shapes are enumerated (tags 0..255 thorough), not symbolic: stated as such; known finding: (bits,aggregation)=(1,1) prover output has zero rounds and is refused by the decoder', ref='§5 C15')
 M_TECH = 'symbolic evaluation of the nightly MIR of /repo (regions located by source anchors, one loop iteration from an arbitrary state), bit-vector obligations decided by z3'
+M_NOTE = ' Engine M obligation groups are tied to a code shape: on a tree whose shape the translator does not recognise a group is reported NOT DECIDED (NOTE line, evidence field engine_m_groups_not_decided) and the other engines of the check decide the enumerated cases; on the pinned tree every group is decided (VERIF_STRICT_M=1 makes a not-decided group exit 2).'
 CHECKS['C06'] = dict(engine='M+S', tech=M_TECH + '; plus concrete position sweep on the symbolic harness',
     text='bounded verification from the compiler IR: the head checks, the value guard loop, the opening check loop, the promise offset and the bit-decomposition loop of prove_with_rng are evaluated symbolically from the MIR; z3 proves Err <=> value >= 2^bits, Err <=> promise > value, From<u64> argument == ((value-promise)>>i)&1 with i in 0..bits, pushes a_li<-bit / a_ri<-bit-1, rustc overflow assertions cannot fire, recomposition sum bit_i 2^i == offset; each single violation at each position of an aggregate is run concretely',
     note='Engine M call table (~30 core functions); loop coverage by the concrete position sweep (enumeration); invariant bit_length = power of two <= 64 from C17', ref='§5 C06')
@@ -66,6 +67,8 @@ NA = {
  'C18': 'not applicable to this family here: the quantifier is over thread interleavings and racing first use of OnceCell statics; Kani/CBMC as shipped does not model Rust threads (rejects std::thread / atomics-based sync), the symbolic-execution engine runs one sequential path, and "deterministic function of its arguments" cannot be asserted over models whose hash/RNG outputs are uninterpreted by construction (DESIGN.md §6)',
 }
 def main():
+    for pid in ('C03', 'C04', 'C06', 'C07', 'C16', 'C17', 'C19'):
+        CHECKS[pid]['note'] += M_NOTE
     checks = []
     for pid, c in sorted(CHECKS.items()):
         checks.append({'property_id': pid, 'quick_cmd': './check %s --tier quick' % pid, 'thorough_cmd': './check %s --tier thorough' % pid,
